@@ -14,11 +14,6 @@ set_option linter.unusedSimpArgs false
 namespace Jelly.Translated
 open Jelly Jelly.Py
 
-theorem swap_eq {r : Except PyErr α × σ} {a : σ} {b : Except PyErr α} (h : swap r = (a, b)) : r = (b, a) := by
-  obtain ⟨x, y⟩ := r
-  simp only [swap, Prod.mk.injEq] at h
-  rw [h.1, h.2]
-
 /-- a method without a result: the attributes afterwards, or the exception -/
 def okState (r : Except PyErr Unit × σ) : Except PyErr σ :=
   match r with
